@@ -61,6 +61,9 @@ LeafAct(t, act, pathEmpty) ==
               ELSE [ok |-> FALSE, tbl |-> t, out |-> NewTbl]
 
 \* descend_path(table, path, dotted) followed by the leaf action; i = index into path
+\* (deliberate deviation: the count of levels walked - an array of tables counts twice - that reports the
+\* recursion-limit error, fix 7f061db, is not transcribed: it matters from 40 chained [[headers]] on, far beyond
+\* the scopes checked here; Depth.tla and the depth events of C05 cover it)
 RECURSIVE Descend(_, _, _, _, _)
 Descend(t, path, i, dotted, act) ==
   IF i > Len(path) THEN LeafAct(t, act, Len(path) = 0)
